@@ -241,10 +241,10 @@ def cut_stmt(k, c):
             f"cut!({k.rust}, &s, &p, &q, \"{k.name},cut={c}\"); }}")
 
 
-def gen_cut(g, ks, per0):
+def gen_cut(g, ks, per0, only_cuts=None):
     for k in ks:
         per = per0 if k.n < 16 else max(2, per0 // 2)   # frames with a 16-byte id: 20-25 s per scenario
-        cuts = list(range(k.n + 1))
+        cuts = list(range(k.n + 1)) if only_cuts is None else only_cuts
         for i in range(0, len(cuts), per):
             chunk = cuts[i:i + per]
             stmts = [f"let s = <{k.rust} as Kind>::spec();"] + [cut_stmt(k, c) for c in chunk]
@@ -348,6 +348,7 @@ def plan(tier, seed):
         by.setdefault(k.fam, []).append(k)
     gen_enc(g, ks, 8)
     gen_cut(g, ks, 8 if tier == "quick" else 10)
+    # (tried: single-cut harnesses for the ad hoc command Register frame with a 900 s time-out: all timed out)
     if tier == "quick":
         pairs = [tuple(pick(ks, p)) for p in PAIRS_QUICK]
     else:
